@@ -99,3 +99,109 @@ Example helper_chain_ok :
      (S "Statement.render", S "statement.go:42 items", [UseLen; UseIndexRead; UseReslice UseSelfAssign; UseSelfAssign]);
      (S "Statement.render", S "statement.go:42 *s (expression)", [UseCopyTo (S "statement.go:42 items")])] = true.
 Proof. vm_compute. reflexivity. Qed.
+
+(* ======== builder calls ======== *)
+Section CallsProofs.
+Variable rs : list result_row.
+Variable lo : list local_row.
+Variable self_app : list str.
+Variable calls : list call_row.
+
+Lemma kind_self_sound n : forall k, kind_self rs lo n k = true -> DenotesSelf rs lo k.
+Proof.
+  induction n as [|n IH]; intros k H; [discriminate|].
+  destruct k as [ | | f | m k | fn v | w]; cbn [kind_self] in H; try discriminate.
+  - constructor.
+  - apply andb_true_iff in H. destruct H as [H1 H2].
+    destruct (lookup_result rs m) as [ks|] eqn:E; [|discriminate].
+    rewrite forallb_forall in H2.
+    eapply DS_chain; [apply IH; exact H1 | exact E | intros k' Hk; apply IH; apply H2; exact Hk].
+  - destruct (lookup_local lo fn v) as [k'|] eqn:E; [|discriminate].
+    eapply DS_local; [exact E | apply IH; exact H].
+Qed.
+
+Lemma kind_fresh_sound n : forall k, kind_fresh rs lo n k = true -> Fresh rs lo k.
+Proof.
+  induction n as [|n IH]; intros k H; [discriminate|].
+  destruct k as [ | | f | m k | fn v | w]; cbn [kind_fresh] in H; try discriminate.
+  - constructor.
+  - destruct (lookup_result rs f) as [ks|] eqn:E; [|discriminate].
+    rewrite forallb_forall in H.
+    eapply FR_call; [exact E | intros k Hk; apply IH; apply H; exact Hk].
+  - apply andb_true_iff in H. destruct H as [H1 H2].
+    destruct (lookup_result rs m) as [ks|] eqn:E; [|discriminate].
+    rewrite forallb_forall in H2.
+    eapply FR_chain; [apply IH; exact H1 | exact E | intros k' Hk; eapply kind_self_sound; apply H2; exact Hk].
+  - destruct (lookup_local lo fn v) as [k'|] eqn:E; [|discriminate].
+    eapply FR_local; [exact E | apply IH; exact H].
+Qed.
+
+(* neither reading ever holds of an expression the translator could not identify, and a fresh
+   cell is never the receiver *)
+Lemma other_never_self w : ~ DenotesSelf rs lo (PkOther w).
+Proof. intro H; inversion H. Qed.
+Lemma other_never_fresh w : ~ Fresh rs lo (PkOther w).
+Proof. intro H; inversion H. Qed.
+Lemma self_never_fresh : ~ Fresh rs lo PkSelf.
+Proof. intro H; inversion H. Qed.
+Lemma call_never_self f : ~ DenotesSelf rs lo (PkCall f).
+Proof. intro H; inversion H. Qed.
+Lemma new_never_self : ~ DenotesSelf rs lo PkNew.
+Proof. intro H; inversion H. Qed.
+
+Lemma mutating_sound n : forall m, mutating rs lo self_app calls n m = false -> Quiet rs lo self_app calls m.
+Proof.
+  induction n as [|n IH]; intros m H; [discriminate|].
+  cbn [mutating] in H.
+  destruct (existsb (str_eqb m) self_app) eqn:H1; [discriminate|].
+  constructor.
+  - intro Hin. assert (existsb (str_eqb m) self_app = true) as E.
+    { apply existsb_exists. exists m. split; [exact Hin | apply str_eqb_refl]. }
+    congruence.
+  - intros r Hr Hfn Hself. apply IH.
+    destruct (mutating rs lo self_app calls n (cr_method r)) eqn:E; [|reflexivity].
+    match type of H with existsb ?f calls = false => assert (existsb f calls = true) as X end.
+    { apply existsb_exists. exists r. split; [exact Hr|].
+      rewrite Hfn, str_eqb_refl, Hself. exact E. }
+    congruence.
+Qed.
+
+(* the obligation implies the declarative reading of the table *)
+Theorem foreign_builder_calls_nil_sound :
+  foreign_builder_calls rs lo self_app calls = [] -> calls_sound rs lo self_app calls.
+Proof.
+  unfold foreign_builder_calls, calls_sound. intros H r Hr.
+  destruct (call_ok rs lo self_app calls r) eqn:E.
+  - unfold call_ok in E.
+    destruct (kind_self rs lo 8 (cr_kind r)) eqn:E1.
+    { left. eapply kind_self_sound; exact E1. }
+    destruct (kind_fresh rs lo 8 (cr_kind r)) eqn:E2.
+    { right; left. eapply kind_fresh_sound; exact E2. }
+    right; right. apply negb_true_iff in E. eapply mutating_sound; exact E.
+  - exfalso. assert (In r (filter (fun r => negb (call_ok rs lo self_app calls r)) calls)) as X.
+    { apply filter_In. split; [exact Hr | rewrite E; reflexivity]. }
+    rewrite H in X. exact X.
+Qed.
+End CallsProofs.
+
+(* the pinned tree's shapes: `newStatement().Op(op)` in a package function is a call on a fresh
+   cell; `p.Add(t)` on the result of a type assertion is foreign; a reader may be called on any
+   statement *)
+Example calls_examples :
+  let rs := [(S "newStatement", [PkNew]); (S "Statement.Op", [PkSelf]); (S "Op", [PkChain (S "Statement.Op") (PkCall (S "newStatement"))]);
+             (S "Statement.lit", [PkSelf]); (S "Statement.Lit", [PkChain (S "Statement.lit") PkSelf])] in
+  let lo := [(S "Group.Op", S "tokens.go:160 s", PkCall (S "Op"))] in
+  let sa := [S "Statement.Op"; S "Statement.Add"; S "Statement.lit"] in
+  let calls := [(S "Op", S "tokens.go:154 newStatement().Op", S "Statement.Op", PkCall (S "newStatement"));
+                (S "Group.Op", S "tokens.go:162 s.Op", S "Statement.Op", PkLocal (S "Group.Op") (S "tokens.go:160 s"));
+                (S "Statement.Lit", S "lit.go:23 s.lit", S "Statement.lit", PkSelf);
+                (S "Group.X", S "x.go:1 Lit(1).Lit(2).Op", S "Statement.Op", PkChain (S "Statement.Lit") (PkCall (S "Op")));
+                (S "Statement.Op", S "tokens.go:171 p.Add", S "Statement.Add", PkOther (S "p"));
+                (S "Statement.Op", S "tokens.go:172 p.Lit", S "Statement.Lit", PkOther (S "p"));
+                (S "Statement.Op", S "tokens.go:173 pending = s.Add", S "Statement.Add", PkOther (S "method value"));
+                (S "Group.render", S "group.go:49 s.previous", S "Statement.previous", PkOther (S "s"))] in
+  map cr_where (foreign_builder_calls rs lo sa calls) =
+    [S "tokens.go:171 p.Add"; S "tokens.go:172 p.Lit"; S "tokens.go:173 pending = s.Add"] /\
+  map cr_where (fresh_builder_calls rs lo calls) =
+    [S "tokens.go:154 newStatement().Op"; S "tokens.go:162 s.Op"; S "x.go:1 Lit(1).Lit(2).Op"].
+Proof. vm_compute. split; reflexivity. Qed.
